@@ -81,6 +81,12 @@ func HasSpaceOrAt(s string) bool {
 
 // GenPlainToken draws a non-empty string free of Unicode whitespace and '@'.
 func GenPlainToken(t *rapid.T, label string) string {
+	if rapid.IntRange(0, 19).Draw(t, label+"Long") == 0 {
+		// long values: around the buffer sizes of the usual readers (4 KiB, 64 KiB) and beyond
+		n := rapid.SampledFrom([]int{4095, 4096, 4097, 65535, 65536, 65537, 100000, 200001}).Draw(t, label+"Len")
+		unit := rapid.SampledFrom([]string{"a", "ab=", "é", "0123456789"}).Draw(t, label+"Unit")
+		return strings.Repeat(unit, n/len(unit)+1)[:n/len(unit)*len(unit)]
+	}
 	switch rapid.IntRange(0, 5).Draw(t, label+"K") {
 	case 0:
 		return rapid.SampledFrom([]string{"a=b", "=", "x==y", `"`, `{"a":1}`, "日本", "é", "IFVer=6", "req", "HardKey=true", "\x00", "a,b,c", "-1", "true"}).Draw(t, label)
